@@ -63,6 +63,18 @@ CHECKS = {
   text="Proved in Coq for every position, depth, TT content, history, poll schedule and stop point: every search (and every single call of negamax / quiescence) ends with ply and repetition index restored, the recorded history prefix and table length untouched, counters monotone; the position is an immutable value in the model. Per run the driver compares all 18 fields of the caller's Game and the repetition table before/after every search of every scenario (incl. every stop point). searchcore stream: the real engine (hooks on: scripted polls, full event trace) vs the extracted search model on cold searches, shuffled games with warm TT and full history, stop injected at every poll index of small searches, TT-bypassed searches; the engine's answers are judged by extracted Coq monitors.",
   note=TB + " Modelled boundary: repetition table capacity 1000 (a write beyond it panics in Rust, is a no-op in the model; unreachable below ~930 plies of history). UCI-level commands (perft, eval, d, isready) are covered by C13's session model when built.",
   tech="Coq proof (balance invariant by fuel induction, all schedules) + before/after comparison on the engine", ref="DESIGN.md 6 C17"),
+ 'C11': dict(
+  text="Proved in Coq: the conversion from the internal score to the `score mate N` field after fix 11cb996 (MATE_VALUE - p -> (p+1)/2 for odd p; -MATE_VALUE + p -> -(p/2), mated-next-move prints -1; no mate field inside +-MATE_BOUND), the sign of N, and the TT re-basing of mate distances. Truthfulness of announcements (forced mate within N, mate-in-one reported and played at depth >= 3, PV length when the PV ends in mate) is decided per run by an exhaustive forced-mate solver extracted from the rules-of-chess specification (mate / mated in <= 2 moves) on solver-labelled mate positions, composed mates, their colour mirrors, and every mate announcement of the shared search scenarios.",
+  note=TB + " PARTIAL by nature: for depth >= 3 'announced mate => forced mate' is not a theorem of an engine with null-move pruning and a history-independent TT; distances > 2 are not solver-checked (counted in the evidence). Finding F7 fixed in /repo (11cb996).",
+  tech="Coq proof (mate-field arithmetic, TT re-basing) + extracted forced-mate solver as oracle", ref="DESIGN.md 6 C11"),
+ 'C18': dict(
+  text="In the model a search is a Gallina function of (position, history prefix, TT, poll predicate, stop schedule); proved: clearing the TT leaves nothing retrievable, and (C17) a search never changes the history it was given. Decided per run on the real engine: (a) shared search scenarios re-run in a fresh process must answer identically; (b) black-box sessions through the real UCI main loop with scripted input: random command histories (positions, depth-limited and interrupted searches, perft, eval, d, isready) followed by ucinewgame + position + go depth d must print what a fresh process prints (time masked, `d` output included). The crate is checked for `static mut` state by the tie (none).",
+  note=TB + " PARTIAL: ucinewgame equivalence is tested black-box, not proved (the UCI loop model of C13 does not yet carry it); junk-independence of the repetition table above its index is structural after fix 67301be (the search reads only the prefix) but not stated as a theorem yet.",
+  tech="Coq proof (TT clear, history frame) + black-box differential sessions through the real main loop", ref="DESIGN.md 6 C18"),
+ 'C19': dict(
+  text="Reference value in Coq (Spec/Minimax.v): plain negamax over legal moves with check extension, capture-only quiescence with stand-pat, the engine's evaluation at leaves, mate by distance, stalemate 0, the two horizon rules. Proved: at depth <= 2 neither the null-move nor the LMR condition can hold, children stay at depth <= 2; and the oracle's evaluator -- a fail-soft alpha-beta over an abstract expansion function (Spec/AlphaBeta.v) -- returns exactly the plain negamax value for every tree (induction over fuel and children, window relation). Per run: every printed iteration score of the real engine at depth 1 and 2 with the TT bypassed equals the extracted reference on ~400 legal positions (thorough: thousands); engine = model on the same searches.",
+  note=TB + " PARTIAL: exactness of the engine's own fail-hard alpha-beta/PVS skeleton w.r.t. the reference (C19_full) is compared on generated positions, not yet proved; iterations that fail their aspiration window print nothing and are counted, not compared.",
+  tech="Coq proof (pruning inactive at depth<=2; verified alpha-beta reference evaluator) + extracted reference vs engine", ref="DESIGN.md 6 C19"),
 }
 
 def main():
